@@ -15,7 +15,7 @@ rsync -a --exclude .git /repo/ "$S/repo/"
 if [ "${MUT_TESTS:-0}" = 1 ]; then ( cd "$S/repo" && go test -vet=off -count=1 ./... 2>&1 | grep -v '^ok\|no test files' | sed 's/^/SUITE: /' ); fi
 BIN=${DDCHECK_BIN:-/verif/bin/ddcheck}
 [ -x "$BIN" ] || ( cd /verif/checker && go build -o /verif/bin/ddcheck ./cmd/ddcheck )
-out=$(DDCHECK_OUT="$S/out" "$BIN" -prop "$PROPS" -repo "$S/repo" -verif /verif 2>&1); c=$?
+out=$(DDCHECK_OUT="$S/out" "$BIN" -prop "$PROPS" -repo "$S/repo" -verif "${DDCHECK_VERIF:-/verif}" 2>&1); c=$?
 alarms=$(echo "$out" | grep '^VIOLATION' | sed 's/.*property=\([A-Z0-9]*\).*/\1/' | sort | uniq -c | awk '{printf "%s(%s) ", $2, $1}')
 echo "ALL: $(basename $(dirname $PATCH))/$(basename $PATCH) exit=$c alarms=${alarms:-none}"
 echo "$out" | sed "s#$S/repo/##g" | grep -v '^VIOLATION\|^==\|KNOWN-FINDING\|^ *$' | head -${MUT_LINES:-10} | cut -c1-400
